@@ -23,6 +23,15 @@ const (
 	PacketAuthAlgorithm = uint8(0) // AES-CMAC
 )
 
+// PacketAuthOptIsFor reports whether authOpt, whatever its size, is labelled
+// with the given security parameter index and the time service's algorithm.
+func PacketAuthOptIsFor(authOpt *slayers.EndToEndOption, spi uint32) bool {
+	d := authOpt.OptData
+	return len(d) >= 5 &&
+		uint32(d[3])|uint32(d[2])<<8|uint32(d[1])<<16|uint32(d[0])<<24 == spi &&
+		d[4] == PacketAuthAlgorithm
+}
+
 func PacketAuthOptMetadata(authOpt *slayers.EndToEndOption) (spi uint32, algo uint8) {
 	authOptData := authOpt.OptData
 	if len(authOptData) != PacketAuthOptDataLen {
